@@ -25,7 +25,10 @@
      (a mis-shaped cell reads as a default), so the walkers are total functions by structural recursion on the type and on the
      element count -- no fuel.  The bit loop of nunavutCopyBits is the only fuel-driven loop; its adequacy is
      Prims/CPrimsThm.copy_bits_exact (C14), re-exported in Properties/C04.v. *)
-From Verif Require Import Wire Walker.
+From Verif Require Import Wire Walker Gen_C01 GenC01Thm.
+From Coq Require Import String.
+From Coq Require Import List.
+Import ListNotations.
 Local Open Scope nat_scope.
 
 (* ---- access log ---- *)
@@ -68,17 +71,30 @@ Record cfg : Type := {
   up_front : bool;              (* the `8*capacity_bytes < max` check of _serialize_impl is compiled in
                                    (false = <T>_DISABLE_SERIALIZATION_BUFFER_CHECK_, defined as soon as a capacity is overridden) *)
   little : bool;                (* target_endianness = little: memmove paths and zero-cost bulk copies *)
+  al : nat -> bool;             (* the static annotation `offset.is_aligned_at_byte()` of the primitive site visited at this bit offset:
+                                   ANY function - the theorems hold for every annotation, so pydsdl's analysis is not modelled *)
+  len_chk_storage : bool;       (* the length checks compare against the storage capacity (sizeof(elements)/sizeof(elements[0]))
+                                   instead of the DSDL capacity literal *)
+  guarded : bool;               (* every store that does not go through a checked primitive is preceded by a run-time bound *)
+  ptr_clamp : bool;             (* _deserialize_composite forms &buffer[min(offset_bits / 8, capacity_bytes)] *)
 }.
 
-Definition std_cfg (le : bool) : cfg := {| ov := fun _ c => c; up_front := true; little := le |}.
+Definition dyn_al (off : nat) : bool := off mod 8 =? 0.
+Definition std_cfg (le : bool) : cfg :=
+  {| ov := fun _ c => c; up_front := true; little := le; al := dyn_al; len_chk_storage := false; guarded := false; ptr_clamp := true |}.
 Definition cap_ok (c : cfg) : Prop := forall e n, n <= ov c e n.
+(* the array length checks keep every index inside the storage *)
+Definition cap_sound (c : cfg) : Prop := len_chk_storage c = true \/ cap_ok c.
+(* what `.count` is compared against (definitions.j2 refuses a storage capacity above the DSDL capacity with #error) *)
+Definition chk_cap (c : cfg) (e : ty) (cap : nat) : nat := if len_chk_storage c then Nat.min cap (ov c e cap) else cap.
 
+(* `t is zero_cost_primitive`: the TRANSLATED nunavut.lang.c.is_zero_cost_primitive (Generated/Gen_C01.v) on pydsdl's view of the
+   primitive (GenC01Thm.desc_of_prim); a TypeError (None) cannot occur for the array element types DSDL admits *)
 Definition zero_cost (c : cfg) (p : prim) : bool :=
-  little c && match p with
-              | PU w _ | PS w _ => is_std w
-              | PF w _ => (w =? 32) || (w =? 64)
-              | _ => false
-              end.
+  match is_zero_cost_primitive (if little c then "little"%string else "any"%string) (desc_of_prim p) with
+  | Some b => b
+  | None => false
+  end.
 
 (* element width when the array is moved by one nunavutCopyBits / nunavutGetBits call *)
 Definition bulk (c : cfg) (e : ty) : option nat :=
@@ -111,17 +127,23 @@ Definition w_raw (off w : nat) : M nat := (Ok (off + w), [BW (off / 8) (bytes_hi
 Definition w_checked (lim off w : nat) : M nat :=
   if lim <? off + w then fail ETooSmall else w_raw off w.
 
+(* a store the templates emit without a checked primitive; bounded at run time in the guarded rendering *)
+Definition w_store (c : cfg) (lim off w : nat) : M nat := if guarded c then w_checked lim off w else w_raw off w.
+(* the bare guard `if (offset_bits + w > capacity_bytes * 8U) return TOO_SMALL` followed by `offset_bits += w` *)
+Definition w_guard (c : cfg) (lim off w : nat) : M nat :=
+  if guarded c && (lim <? off + w) then fail ETooSmall else ret (off + w).
+
 Definition ws_pad (lim off a : nat) : M nat :=
   if off mod a =? 0 then ret off else w_checked lim off (a - off mod a).
 
 Definition ws_prim (c : cfg) (p : prim) (lim off : nat) : M nat :=
   let w := prim_bits p in
-  let al := off mod 8 =? 0 in
+  let al := al c off in
   match p with
-  | PBool => w_raw off 1                                                     (* byte store / read-modify-write of one byte *)
-  | PVoid _ => if al then w_raw off w else w_checked lim off w               (* byte store / memset / SetUxx 0 *)
-  | PU _ _ | PS _ _ => if al && ((w <=? 8) || little c) then w_raw off w else w_checked lim off w
-  | PF _ _ => if al && little c then w_raw off w else w_checked lim off w
+  | PBool => w_store c lim off 1                                             (* byte store / read-modify-write of one byte *)
+  | PVoid _ => if al then w_store c lim off w else w_checked lim off w       (* byte store / memset / SetUxx 0 *)
+  | PU _ _ | PS _ _ => if al && ((w <=? 8) || little c) then w_store c lim off w else w_checked lim off w
+  | PF _ _ => if al && little c then w_store c lim off w else w_checked lim off w
   end.
 
 Section SerList.
@@ -155,17 +177,21 @@ Definition ws_field (c : cfg) (Sr : ty -> cobj -> nat -> nat -> M nat) (t : ty) 
   match t with
   | TComp _ _ ext =>
       let sz := 8 * bytes_hi (bmax t) in
+      (* guarded rendering: size_bytes = min(ceil(max/8), capacity_bytes - offset_bits/8) *)
+      let nlim := fun o1 => if guarded c then Nat.min (o1 + sz) lim else o1 + sz in
       match ext with
       | Some _ =>
           if bmin t =? bmax t then                      (* constant header written ahead: _serialize_integer(uint32) *)
             bindM (ws_prim c (PU header_bits false) lim off) (fun o1 =>
-              bindM (tell [BP (o1 / 8)]) (fun _ => Sr t o (o1 + sz) o1))
+              bindM (w_guard c lim o1 0) (fun _ =>
+                bindM (tell [BP (o1 / 8)]) (fun _ => Sr t o (nlim o1) o1)))
           else                                          (* reserve 32 bits, nested call, jump back to store the header *)
-            let o1 := off + header_bits in
-            bindM (tell [BP (o1 / 8)]) (fun _ =>
-              bindM (Sr t o (o1 + sz) o1) (fun o2 =>
-                bindM (if little c then w_raw off header_bits else w_checked lim off header_bits) (fun _ => ret o2)))
-      | None => bindM (tell [BP (off / 8)]) (fun _ => Sr t o (off + sz) off)
+            bindM (w_guard c lim off header_bits) (fun o1 =>
+              bindM (w_guard c lim o1 0) (fun _ =>
+                bindM (tell [BP (o1 / 8)]) (fun _ =>
+                  bindM (Sr t o (nlim o1) o1) (fun o2 =>
+                    bindM (if little c then w_store c lim off header_bits else w_checked lim off header_bits) (fun _ => ret o2)))))
+      | None => bindM (w_guard c lim off 0) (fun _ => bindM (tell [BP (off / 8)]) (fun _ => Sr t o (nlim off) off))
       end
   | _ => Sr t o lim off
   end.
@@ -176,17 +202,17 @@ Fixpoint ws_body (c : cfg) (t : ty) (o : cobj) (lim off : nat) : M nat :=
   | TFix e n =>
       bindM (tell [OA n n]) (fun _ =>
         match bulk c e with
-        | Some w => w_raw off (n * w)                                       (* nunavutCopyBits, unchecked *)
+        | Some w => w_store c lim off (n * w)                               (* nunavutCopyBits, unchecked *)
         | None => ws_list (fun x off' => ws_field c (ws_body c) e x lim off') n (o_elems o) off
         end)
   | TVar e cap =>
       let n := o_count o in
-      if cap <? n then fail EBadLen                                         (* before anything is touched *)
+      if chk_cap c e cap <? n then fail EBadLen                             (* before anything is touched *)
       else
         bindM (tell [OA (ov c e cap) n]) (fun _ =>
           bindM (ws_prim c (PU (prefix_bits cap) false) lim off) (fun o1 =>
             match bulk c e with
-            | Some w => w_raw o1 (n * w)
+            | Some w => w_store c lim o1 (n * w)
             | None => ws_list (fun x off' => ws_field c (ws_body c) e x lim off') n (o_elems o) o1
             end))
   | TComp false fs _ => ws_fields (ws_field c (ws_body c)) fs (o_elems o) lim off
@@ -207,11 +233,11 @@ Definition rd_log (cap off w : nat) : list acc :=
   let sat := Nat.min w (cap - Nat.min cap off) in
   if sat =? 0 then [] else [BR (off / 8) (bytes_hi (off + sat))].
 
-Definition rp_log (p : prim) (cap off : nat) : list acc :=
+Definition rp_log (c : cfg) (p : prim) (cap off : nat) : list acc :=
   let w := prim_bits p in
   match p with
   | PBool => if off <? cap then [BR (off / 8) (off / 8 + 1)] else []
-  | PU _ _ => if (off mod 8 =? 0) && (w <=? 8)
+  | PU _ _ => if al c off && (w <=? 8)
               then (if off + w <=? cap then [BR (off / 8) (off / 8 + 1)] else [])
               else rd_log cap off w
   | PVoid _ => []
@@ -219,8 +245,8 @@ Definition rp_log (p : prim) (cap off : nat) : list acc :=
   end.
 
 (* integer read used for length prefixes, tags and delimiter headers: value as in Walker.v, footprint as above *)
-Definition rd_uint (w : nat) (buf : list bool) (cap off : nat) : M N :=
-  (Ok (N_of_bits (get_bits ref_prims buf cap off w)), rp_log (PU w false) cap off).
+Definition rd_uint (c : cfg) (w : nat) (buf : list bool) (cap off : nat) : M N :=
+  (Ok (N_of_bits (get_bits ref_prims buf cap off w)), rp_log c (PU w false) cap off).
 
 Definition rres (A : Type) := M (A * nat).
 
@@ -253,19 +279,21 @@ Section DesComb.
     end.
 End DesComb.
 
-Definition wd_field (D : ty -> cobj -> list bool -> nat -> nat -> rres cobj) (t : ty) (p : cobj) (buf : list bool) (cap off : nat)
+Definition ptr_at (c : cfg) (cap o : nat) : nat := if ptr_clamp c then Nat.min (o / 8) (cap / 8) else o / 8.
+
+Definition wd_field (c : cfg) (D : ty -> cobj -> list bool -> nat -> nat -> rres cobj) (t : ty) (p : cobj) (buf : list bool) (cap off : nat)
   : rres cobj :=
   match t with
   | TComp _ _ (Some _) =>
-      bindM (rd_uint header_bits buf cap off) (fun hN =>
+      bindM (rd_uint c header_bits buf cap off) (fun hN =>
         let o := off + header_bits in
         let remaining := cap / 8 - Nat.min (o / 8) (cap / 8) in
         if (N.of_nat remaining <? hN)%N then fail EBadHdr
         else let h := N.to_nat hN in
-             bindM (tell [BP (o / 8)]) (fun _ =>
+             bindM (tell [BP (ptr_at c cap o)]) (fun _ =>
                bindM (D t p buf (Nat.min cap (o + 8 * h)) o) (fun '(v, _) => ret (v, o + 8 * h))))
   | TComp _ _ None =>
-      bindM (tell [BP (off / 8)]) (fun _ =>
+      bindM (tell [BP (ptr_at c cap off)]) (fun _ =>
         bindM (D t p buf cap off) (fun '(v, o') =>
           let avail := cap - Nat.min off cap in
           ret (v, off + 8 * (Nat.min (o' - off) avail / 8))))
@@ -274,33 +302,33 @@ Definition wd_field (D : ty -> cobj -> list bool -> nat -> nat -> rres cobj) (t 
 
 Fixpoint wd_body (c : cfg) (t : ty) (p : cobj) (buf : list bool) (cap off : nat) : rres cobj :=
   match t with
-  | TPrim q => (Ok (CPrim (r_prim ref_prims q buf cap off), off + prim_bits q), rp_log q cap off)
+  | TPrim q => (Ok (CPrim (r_prim ref_prims q buf cap off), off + prim_bits q), rp_log c q cap off)
   | TFix e n =>
       bindM (tell [OA n n]) (fun _ =>
         bindM (match bulk c e with
                | Some w => bindM (tell (rd_log cap off (n * w))) (fun _ =>
-                             silence (wd_list (wd_field (wd_body c) e) n (o_elems p) buf cap off))
-               | None => wd_list (wd_field (wd_body c) e) n (o_elems p) buf cap off
+                             silence (wd_list (wd_field c (wd_body c) e) n (o_elems p) buf cap off))
+               | None => wd_list (wd_field c (wd_body c) e) n (o_elems p) buf cap off
                end) (fun '(vs, o) => ret (CFix vs, o)))
   | TVar e cp =>
       let pw := prefix_bits cp in
-      bindM (rd_uint pw buf cap off) (fun nN =>                       (* stored into .count, then compared *)
-        if (N.of_nat cp <? nN)%N then fail EBadLen
+      bindM (rd_uint c pw buf cap off) (fun nN =>                     (* stored into .count, then compared *)
+        if (N.of_nat (chk_cap c e cp) <? nN)%N then fail EBadLen
         else
           let n := N.to_nat nN in
           bindM (tell [OA (ov c e cp) n]) (fun _ =>
             bindM (match bulk c e with
                    | Some w => bindM (tell (rd_log cap (off + pw) (n * w))) (fun _ =>
-                                 silence (wd_list (wd_field (wd_body c) e) n (o_elems p) buf cap (off + pw)))
-                   | None => wd_list (wd_field (wd_body c) e) n (o_elems p) buf cap (off + pw)
+                                 silence (wd_list (wd_field c (wd_body c) e) n (o_elems p) buf cap (off + pw)))
+                   | None => wd_list (wd_field c (wd_body c) e) n (o_elems p) buf cap (off + pw)
                    end) (fun '(vs, o) => ret (CVar n vs, o))))
   | TComp false fs _ =>
-      bindM (wd_fields (wd_field (wd_body c)) fs (o_elems p) buf cap off) (fun '(vs, o) => ret (CStruct vs, o))
+      bindM (wd_fields (wd_field c (wd_body c)) fs (o_elems p) buf cap off) (fun '(vs, o) => ret (CStruct vs, o))
   | TComp true fs _ =>
       let tw := tag_bits (length fs) in
-      bindM (rd_uint tw buf cap off) (fun kN =>
+      bindM (rd_uint c tw buf cap off) (fun kN =>
         if (N.of_nat (length fs) <=? kN)%N then fail EBadTag
-        else bindM (wd_sel (wd_field (wd_body c)) fs (N.to_nat kN) (o_cell p) buf cap (off + tw)) (fun '(v, o) =>
+        else bindM (wd_sel (wd_field c (wd_body c)) fs (N.to_nat kN) (o_cell p) buf cap (off + tw)) (fun '(v, o) =>
                ret (CUnion (N.to_nat kN) v, o + pad8 o)))
   end.
 
